@@ -390,6 +390,15 @@ fn obs_check(ctx: &mut Ctx) {
     if matches!(prop, Prop::C02 | Prop::C03) {
         thr_phases(ctx);
     }
+    if prop == Prop::C19 {
+        // counts after handles were created, cloned, upgraded and dropped by racing threads
+        let run_free = move |c: &ThrCase| engine_thr::run_reps(c, prop, 60);
+        let n = ctx.pick(1_500, 40_000);
+        let saved = ctx.threads;
+        ctx.threads = saved.min(8);
+        ctx.random("free-running-threads", "thr", &|| engine_thr::case(false, 4, 6), &run_free, n);
+        ctx.threads = saved;
+    }
     if prop == Prop::C01 {
         // "the value most recently stored" and "ready exactly for unobserved updates" also when the
         // calls come from several threads (subscribe racing a writer, polls racing sets): the
